@@ -210,7 +210,7 @@ def objs(struct, system, mom):
     return AR.struct_map(struct, lambda e: AR.obj_of(system, mom, e))
 
 
-def run_unary(F, system, mom, layouts, seed, extras_layouts=("ak-jagged", "ak-record", "ak-flat", "ak-rawzip", "ak-regular")):
+def run_unary(F, system, mom, layouts, seed, extras_layouts=("ak-jagged", "ak-record", "ak-flat", "ak-rawzip", "ak-regular", "ak-record-at2")):
     d = len(system) + 1
     for layout in layouts:
         if layout.endswith("-spacelike") and d < 4:
@@ -303,7 +303,8 @@ def run_unary(F, system, mom, layouts, seed, extras_layouts=("ak-jagged", "ak-re
 def _listtype(a):
     """the list part of an Awkward type: '2 * 3 * ', '3 * var * ', '3 * option[var * ' ... (regular vs variable-length vs option-typed dimensions)"""
     import re
-    return re.split(r"(?:Vector|Momentum)\dD|\{|float|int|bool", str(ak.type(a)))[0]
+    # where option-ness is recorded (on the record or on its fields) is not part of the list structure: missing positions are compared by _shape
+    return re.split(r"(?:Vector|Momentum)\dD|\{|float|int|bool", str(ak.type(a)))[0].replace("?", "").replace("option[", "")
 
 
 def _shape(a):
@@ -334,7 +335,7 @@ RECORD_OPERATOR_OPS = {"v==v", "v!=v", "numpy.equal(self)", "numpy.not_equal(sel
 
 
 PAIRINGS = [("np(3)", "np(3)"), ("ak-jagged", "ak-jagged"), ("np(3)", "object"), ("object", "np(3)"), ("ak-jagged", "object"), ("object", "ak-jagged"),
-            ("ak-flat", "np(3)"), ("np(3)", "ak-flat"), ("ak-record", "ak-record"), ("ak-rawzip", "ak-rawzip"), ("np(3,1)", "np(1,3)"), ("ak-record", "object"), ("ak-option", "ak-option"), ("np(2,2)", "np(2,2)"),
+            ("ak-flat", "np(3)"), ("np(3)", "ak-flat"), ("ak-record", "ak-record"), ("ak-rawzip", "ak-rawzip"), ("np(3,1)", "np(1,3)"), ("ak-record-at2", "ak-record-at2"), ("object", "ak-record-at2"), ("ak-record", "object"), ("ak-option", "ak-option"), ("np(2,2)", "np(2,2)"),
             ("ak-nested", "object")]
 
 
@@ -342,10 +343,10 @@ def run_binary(F, s1, s2, m1, m2, pairings, seed):
     d, d2 = len(s1) + 1, len(s2) + 1
     for l1, l2 in pairings:
         rng = random.Random(hash((seed, s1, s2, m1, m2, l1, l2)) & 0xFFFFFFF)
-        a, sa = AR.build(l1, s1, m1, rng, extras=(l1 in ("ak-jagged", "ak-record")))
+        a, sa = AR.build(l1, s1, m1, rng, extras=(l1 in ("ak-jagged", "ak-record", "ak-record-at2")))
         outer = (l1, l2) == ("np(3,1)", "np(1,3)")
         if AR.nest(l1) == AR.nest(l2) or "E" in (AR.nest(l1), AR.nest(l2)) or outer:
-            b, sb = AR.build(l2, s2, m2, rng, extras=(l2 in ("ak-jagged",)))
+            b, sb = AR.build(l2, s2, m2, rng, extras=(l2 in ("ak-jagged", "ak-record-at2")))
         else:
             continue
         OA, OB = objs(sa, s1, m1), objs(sb, s2, m2)
@@ -356,11 +357,11 @@ def run_binary(F, s1, s2, m1, m2, pairings, seed):
                 continue        # an axis of a higher-priority backend cannot be broadcast into the lower-priority result (by design)
             if name == "a@b" and (l1.startswith("ak") or l2.startswith("ak")):
                 continue        # probed separately (known finding C05 '@ on Awkward')
-            if name in ("a==b", "a!=b", "numpy.equal", "numpy.not_equal") and "ak-record" in (l1, l2):
+            if name in ("a==b", "a!=b", "numpy.equal", "numpy.not_equal") and any(x.startswith("ak-record") for x in (l1, l2)):
                 continue        # probed separately (known finding C18 'operators on records')
             if name == "like" and AR.nest(l1) != AR.nest(l2) and l2 != "object":
                 continue        # like() is not a broadcasting operation: the result has the structure of its first operand only
-            if name == "allclose" and l1 in ("object", "ak-record"):
+            if name == "allclose" and (l1 == "object" or l1.startswith("ak-record")):
                 continue        # allclose is a method of arrays only
             if name in ("numpy.isclose", "numpy.allclose") and (l1.startswith("ak") or l2.startswith("ak")):
                 continue        # probed separately (known finding C12 'numpy.isclose on Awkward vector arrays')
@@ -393,7 +394,7 @@ def run_binary(F, s1, s2, m1, m2, pairings, seed):
                 ref = a if isinstance(a, ak.Array) else (b if isinstance(b, ak.Array) else None)
                 if ref is not None and isinstance(res, ak.Array):
                     F.check("C18", f"structure-preserved/{tag}", _shape(res) == _shape(ref), dict(got=_shape(res), expected=_shape(ref)))
-            if ak is not None and name not in TWO_VECTOR_OPS and isinstance(res, (ak.Array, ak.Record)) and isinstance(res, vector.Vector) and l1 in ("ak-jagged", "ak-record"):
+            if ak is not None and name not in TWO_VECTOR_OPS and isinstance(res, (ak.Array, ak.Record)) and isinstance(res, vector.Vector) and l1 in ("ak-jagged", "ak-record", "ak-record-at2"):
                 F.check("C18", f"extra-field-carried/charge/{tag}", "charge" in ak.fields(res), dict(fields=ak.fields(res)))
 
 
@@ -428,7 +429,7 @@ def lattice(tier, seed):
                     pairs += [(s2, a, b) for a, b in flav]
                 else:
                     pairs.append((s2,) + flav[k])
-        pairings = PAIRINGS if tier == "thorough" else PAIRINGS[:11]
+        pairings = PAIRINGS if tier == "thorough" else PAIRINGS[:13]
         if ak is None:
             pairings = [p for p in pairings if not any(x.startswith("ak") for x in p)]
         bjobs.append((s1, pairs, pairings, seed))
